@@ -83,6 +83,9 @@ func wireDriver(args []string) error {
 			emit("history_audit_path", fmt.Sprintf("%d entries", k), err == nil && reflect.DeepEqual(ap, parsed))
 		}
 		// --- snapshots, signed snapshots, batches (JSON)
+		// every encoding is decoded twice: at once, and again after all later encodings were
+		// produced (a sender holds the bytes of one message while it encodes the next ones)
+		later := []func(){}
 		for i := 0; i < n/3; i++ {
 			mk := func() *protocol.Snapshot {
 				s := &protocol.Snapshot{Version: mags[rng.Intn(len(mags))]}
@@ -130,6 +133,34 @@ func wireDriver(args []string) error {
 				same = mb.From.Name == m.From.Name && mb.From.Port == m.From.Port && mb.From.Meta.Role == m.From.Meta.Role && mb.From.Addr.Equal(m.From.Addr)
 			}
 			emit("gossip_message", "", same)
+			{
+				s0, raw0, batch0, rawb0, m0, w0 := s, append([]byte(nil), nil...), batch, raw, m, w
+				raw0, _ = s0.Encode()
+				later = append(later, func() {
+					var b protocol.Snapshot
+					err := b.Decode(raw0)
+					emit("snapshot_retained", "", err == nil && b.Version == s0.Version && bytes.Equal(b.EventDigest, s0.EventDigest) && bytes.Equal(b.HistoryDigest, s0.HistoryDigest) && bytes.Equal(b.HyperDigest, s0.HyperDigest))
+					var bb protocol.BatchSnapshots
+					err = bb.Decode(rawb0)
+					same := err == nil && len(bb.Snapshots) == len(batch0.Snapshots)
+					for j := 0; same && j < len(bb.Snapshots); j++ {
+						x, y := bb.Snapshots[j], batch0.Snapshots[j]
+						same = bytes.Equal(x.Signature, y.Signature) && x.Snapshot.Version == y.Snapshot.Version && bytes.Equal(x.Snapshot.HyperDigest, y.Snapshot.HyperDigest) &&
+							bytes.Equal(x.Snapshot.HistoryDigest, y.Snapshot.HistoryDigest) && bytes.Equal(x.Snapshot.EventDigest, y.Snapshot.EventDigest)
+					}
+					emit("signed_batch_retained", "", same)
+					var mb gossip.Message
+					err = mb.Decode(w0)
+					same = err == nil && mb.Kind == m0.Kind && mb.TTL == m0.TTL && bytes.Equal(mb.Payload, m0.Payload) && (m0.From == nil) == (mb.From == nil)
+					if same && m0.From != nil {
+						same = mb.From.Name == m0.From.Name && mb.From.Port == m0.From.Port && mb.From.Meta.Role == m0.From.Meta.Role && mb.From.Addr.Equal(m0.From.Addr)
+					}
+					emit("gossip_message_retained", "", same)
+				})
+			}
+		}
+		for _, f := range later {
+			f()
 		}
 		// --- membership answers incl. versions beyond the current one: verdict before / after the wire
 		st := bplus.NewBPlusTreeStore()
